@@ -460,6 +460,7 @@ func (p *context) compileFuncDecl(pkg llssa.Package, f *ssa.Function) (llssa.Fun
 				}
 			}
 			p.blkInfos = blocks.Infos(f.Blocks)
+			deferKindsByList(f.Blocks, p.blkInfos)
 			i := 0
 			for {
 				block := f.Blocks[i]
@@ -675,6 +676,36 @@ func intVal(v ssa.Value) int64 {
 		}
 	}
 	panic("intVal: ssa.Value is not a const int")
+}
+
+// deferKindsByList makes every defer statement of a function that has a defer
+// statement inside a loop a list-driven (loop) defer. The deferred calls recorded
+// by bits are run in the reverse of the order in which their statements were
+// compiled, and with a cycle in the control flow graph that order need not be
+// the order of execution (a defer behind the loop can be compiled before the
+// loop body): the calls of the loop were then never run. List nodes are popped
+// in the reverse order of execution, whatever the order of compilation.
+func deferKindsByList(blks []*ssa.BasicBlock, infos []blocks.Info) {
+	inLoop := false
+	for i, blk := range blks {
+		if infos[i].Kind != llssa.DeferInLoop {
+			continue
+		}
+		for _, instr := range blk.Instrs {
+			if _, ok := instr.(*ssa.Defer); ok {
+				inLoop = true
+			}
+		}
+	}
+	if !inLoop {
+		return
+	}
+	// The entry block keeps its kind: it is compiled first and executed first, so
+	// its deferred calls are rightly the last to run; and the frame set-up of an
+	// unconditional defer must stay in place there.
+	for i := 1; i < len(infos); i++ {
+		infos[i].Kind = llssa.DeferInLoop
+	}
 }
 
 func skipUnusedArrayDeref(v *ssa.UnOp) bool {
